@@ -190,10 +190,10 @@ func (c *c17eval) run(op string, a, b interface{}, formA, formB bool, opt drive.
 
 func c17(r *rep.Run) {
 	maxLen := 3
-	totals := []int{98, 99, 100, 101, 150}
+	totals := []int{31, 33, 63, 64, 65, 98, 99, 100, 101, 127, 129, 150, 255, 257} // around the 100-element switch and every power of two up to 256
 	r.SetBudget(300e9)
 	if r.Thorough() {
-		totals = []int{50, 97, 98, 99, 100, 101, 102, 150, 199, 200, 201, 1000}
+		totals = []int{15, 16, 17, 31, 32, 33, 50, 63, 64, 65, 97, 98, 99, 100, 101, 102, 127, 128, 129, 150, 199, 200, 201, 255, 256, 257, 511, 513, 1000, 1023, 1025}
 		r.SetBudget(1800e9)
 	}
 	r.Rule = "every pair of lists of length <= 3 over a 3-element universe (all duplicates/orders) for int64 and for string elements; each pair unpadded and padded with disjoint filler (front / back / both sides of the core) to every total length in the list around the 100-element switch, with the left and with the right list the longer one; each operand passed as a literal and as a variable (4 forms), optimisations on and off; typed-empty lists of both element types and the empty literal in either position; every element-type mismatch; 8 further string universes whose elements collide under common 32-bit string hashes (lists of length <= 2); every history (depth 3) of 3 contents written in place into ONE list-variable buffer of length 3..256 under `in` and `overlap`. 4 universes of strings that look like numbers/literals; 6 int universes with long trailing-zero runs, extremes and one-bit differences; the list also as a named constant of the caller's config (compiled twice, the caller's list must stay intact). `in`: every probe (universe elements, a filler element, an absent value, wrong-typed probes) against every such list passed as literal, variable and pre-built set. Oracle: map-based set intersection/membership; overlap(A,B) == overlap(B,A); mismatches are errors. non-trivial = evaluations whose two lists total >= 100 elements"
